@@ -237,7 +237,7 @@ def run_history(rec, case):
     rng = gen.mkrng('c05', case['seed'], case['i'])
     srv = rng.choice(['T', 'A'])
     if srv == 'A' and case.get('aio'):
-        srv = case['aio']    # asyncio server behind the aiohttp adapter
+        srv = case['aio']    # asyncio server behind the aiohttp / tornado adapter
         rec.count('histories_on_aiohttp_adapter')
     pi, pt = rng.choice([(25, 20), (5, 3), (1, 1), (2, 0.5)])
     rec.evaluations += 1
@@ -792,6 +792,8 @@ def run_shard(spec):
                  for k in range(spec['n'])]
         for c in cases[::2]:
             c['aio'] = 'H'
+        for c in cases[2::4]:
+            c['aio'] = 'N'     # ... and behind the tornado adapter
         scen.run_cases(rec, cases, dispatch)
     return rec.result()
 
